@@ -10,7 +10,9 @@ import sexp
 RULE = ("EXHAUSTIVE enumeration of all placements of one sampling site inside nestings of {jit, scan, while_loop, fori_loop (static and dynamic "
         "trip count), cond, switch, grad, jax.vmap (site arguments batched / unbatched), modular_vmap, jax.checkpoint, custom_jvp (custom_vjp in a fixed depth<=2 family)} exhaustively up to depth 1 plus a sample of depth 2-3 (quick) / exhaustively up to depth 3 (thorough), for a plain and an ADEV sampling site, "
         "each executed on real JAX without seed and under seed (two keys, repeated call, jit of the seeded function): exception type or "
-        "key-dependence of the result vs the property's requirement and vs the Lean decision model; non-trivial = depth>=1")
+        "key-dependence of the result vs the property's requirement and vs the Lean decision model; plus random nestings of jit / checkpoint / custom_jvp / cond / scan / while around "
+        "several sites and plain equations: the REAL jaxpr is translated into the interpreter model (Model/Interp.lean) - the code's sub-jaxpr walker vs the model's on every "
+        "higher-order equation, seed raising vs the model's guarded interpreter; non-trivial = depth>=1")
 
 FLAGS = ["grad-inlines-sampler", "vmap-unbatched-replicates"]
 
@@ -111,6 +113,9 @@ def run(ctx, audit):
     n = 13
     shards = [(pls[i::n], "plain") for i in range(n)] + [(adev, "adev")]
     common.run_sharded(ctx, "props.c14", "shard", shards)
+    # the Seed interpreter as an interpreter: real jaxprs translated into Model/Interp.lean
+    import interp_tie
+    interp_tie.run_seed(ctx, 40 if ctx.thorough else 12)
     return {"rule": RULE, "exhaustive": True, "exhaustive_to_depth": exhaustive_depth, "placements": len(pls), "adev_site_placements": len(adev)}
 
 
